@@ -22,6 +22,8 @@ REGISTRY = {
     "C16": ("checks.featurizer_checks", "c16"),
     "C18": ("checks.controla_checks", "c18"),
     "C20": ("checks.controla_checks", "c20"),
+    # supplementary models beyond the listed properties (not in MANIFEST.checks)
+    "S01": ("checks.extra_checks", "s01"),
     "C04": ("checks.arith_checks", "c04"),
     "C05": ("checks.arith_checks", "c05"),
     "C14": ("checks.arith_checks", "c14"),
